@@ -676,7 +676,8 @@ pub fn prop_stress(case: &Burst) -> CaseResult {
     let access_list = Arc::new(AccessListArcSwap::default());
     let (tx, _rx) = crossbeam_channel::unbounded();
     let ticket = Arc::new(AtomicU64::new(0));
-    let mut carried: Vec<TState> = vec![TState::new(), TState::new()];
+    // per torrent: every state the storage can be in, given all replies seen so far
+    let mut carried: Vec<Vec<TState>> = vec![vec![TState::new()], vec![TState::new()]];
     for b in 0..case.bursts.max(1) {
         let events: Arc<Mutex<Vec<Event>>> = Arc::new(Mutex::new(Vec::new()));
         let done = Arc::new(AtomicBool::new(false));
@@ -768,11 +769,16 @@ pub fn prop_stress(case: &Burst) -> CaseResult {
                 })
                 .collect();
             out.checks += 1;
-            match linearizable_from(&subs, &carried[t]) {
-                Some(end) => carried[t] = end,
-                None => vfail!(
+            let ends = linearizable_from(&subs, &carried[t]);
+            if ends.len() > 1 {
+                out.label("several-end-states-consistent");
+            }
+            match ends.is_empty() {
+                false => carried[t] = ends,
+                true => vfail!(
                     "not-linearizable",
-                    "burst {b}, torrent {t}: no sequential order explains the replies of the free-running threads; start state {:?}; operations (inv, ret, op, reply): {:?}; final scrape {:?}",
+                    "burst {b}, torrent {t}: no sequential order explains the replies of the free-running threads from any of the {} possible start states {:?}; operations (inv, ret, op, reply): {:?}; final scrape {:?}",
+                    carried[t].len(),
                     carried[t],
                     events.iter().map(|e| (e.inv, e.ret, &e.op, &e.res)).collect::<Vec<_>>(),
                     final_scrape
@@ -787,17 +793,21 @@ pub fn prop_stress(case: &Burst) -> CaseResult {
     Ok(out)
 }
 
-/// like `linearizable`, from a given start state, returning one reachable end state.
-/// (Several end states may be consistent; carrying one of them is sound only if it stays
-/// consistent with later bursts, so all consistent end states are tried lazily.)
-fn linearizable_from(subs: &[Sub], start: &TState) -> Option<TState> {
-    fn go(subs: &[Sub], done: u64, state: &TState, seen: &mut HashSet<(u64, Vec<((IpAddr, u16), (bool, u8))>)>) -> Option<TState> {
-        if done.count_ones() as usize == subs.len() {
-            return Some(state.clone());
-        }
+/// like `linearizable`, from a *set* of possible start states, returning every reachable end
+/// state. The state between bursts is not fully observable (deadlines only show when a later
+/// cleaning pass acts on them), so several end states can be consistent with one burst; carrying
+/// just one of them would make a later burst look non-linearizable although the other explains
+/// it. An empty result = no sequential order from any possible start explains the burst.
+fn linearizable_from(subs: &[Sub], starts: &[TState]) -> Vec<TState> {
+    type Key = (u64, Vec<((IpAddr, u16), (bool, u8))>);
+    fn go(subs: &[Sub], done: u64, state: &TState, seen: &mut HashSet<Key>, ends: &mut Vec<TState>) {
         let key = (done, state.iter().map(|(k, v)| (*k, *v)).collect::<Vec<_>>());
         if !seen.insert(key) {
-            return None;
+            return;
+        }
+        if done.count_ones() as usize == subs.len() {
+            ends.push(state.clone());
+            return;
         }
         let min_ret = subs.iter().enumerate().filter(|(i, _)| done & (1 << i) == 0).map(|(_, s)| s.ret).min().unwrap();
         for (i, s) in subs.iter().enumerate() {
@@ -805,17 +815,19 @@ fn linearizable_from(subs: &[Sub], start: &TState) -> Option<TState> {
                 continue;
             }
             if let Some(next) = apply(state, &s.op) {
-                if let Some(end) = go(subs, done | (1 << i), &next, seen) {
-                    return Some(end);
-                }
+                go(subs, done | (1 << i), &next, seen, ends);
             }
         }
-        None
     }
     if subs.len() > 60 {
-        return Some(start.clone());
+        return starts.to_vec();
     }
-    go(subs, 0, start, &mut HashSet::new())
+    let mut seen = HashSet::new();
+    let mut ends = Vec::new();
+    for st in starts {
+        go(subs, 0, st, &mut seen, &mut ends);
+    }
+    ends
 }
 
 /// Deadlock hunt: the same generated operation lists, repeated many times by free-running
